@@ -28,6 +28,26 @@ def goto (start : PState) (rst : Bool) (target : PState) (pdo auto12 : Bool) (d 
   let k := runConcrete codeTables view ⟨sched, d, f, s⟩ 1000000 k0
   s!"{resultName k.c.pc} st={k.c.st.num} cw={showNatList k.cws.reverse} trace={showStates k.trace.reverse} acc={k.acc}"
 
+/-- several assignments on one node; item 8 = a fault occurs (the drive enters FAULT REACTION ACTIVE);
+    the drive performs its automatic transitions at once (`d = 0`), no schedule -/
+def hist (start : PState) (rst : Bool) (pdo auto12 : Bool) (extra f s : Nat) (items : List Nat) : String :=
+  let view := viewOf extra
+  let rec go : List Nat → PState → Bool → List String → List Nat → List PState → Nat → String
+    | [], st, _, res, cws, trace, acc =>
+      let r := if res.isEmpty then "-" else String.intercalate "/" res.reverse
+      s!"{r} st={st.num} cw={showNatList cws.reverse} trace={showStates trace.reverse} acc={acc}"
+    | it :: rest, st, rb, res, cws, trace, acc =>
+      if it = 8 then
+        go rest .fra rb res cws (if st = .fra then trace else .fra :: trace) acc
+      else match PState.ofNum it with
+        | none => "bad-op"
+        | some target =>
+          let tgt := min (nameIdx target.name) 8
+          let k := runConcrete codeTables view ⟨[], 0, f, s⟩ 1000000
+            { c := initCfg pdo auto12 tgt st rb }
+          go rest k.c.st k.c.rst (resultName k.c.pc :: res) (k.cws ++ cws) (k.trace ++ trace) (acc + k.acc)
+  go items start rst [] [] [start] 0
+
 def parseTransport (s : String) : Option Bool :=
   if s = "p" then some true else if s = "s" then some false else none
 
@@ -45,6 +65,12 @@ def step (args : List String) : String :=
     | some start, some rst, some target, some pdo, some a12, some d, some extra, some f, some s, some sched =>
       goto start rst target pdo a12 d extra f s sched
     | _, _, _, _, _, _, _, _, _, _ => "bad-op"
+  | ["hist", start, rst, tr, a12, extra, f, s, items] =>
+    match (parseNat start).bind PState.ofNum, parseBool rst, parseTransport tr, parseBool a12,
+          parseNat extra, parseNat f, parseNat s, parseNatList items with
+    | some start, some rst, some pdo, some a12, some extra, some f, some s, some items =>
+      hist start rst pdo a12 extra f s items
+    | _, _, _, _, _, _, _, _ => "bad-op"
   | ["mode", mi, mask, tr, delay, m] =>
     match parseNat mi, parseNat mask, parseTransport tr, parseNat delay, parseNat m with
     | some mi, some mask, some _, some delay, some m =>
